@@ -85,6 +85,21 @@ def tir_range_of_local(F, root, node):
         return None
     cl = enclosing_closures(root).get(n.get("id"))
     if cl is None:
+        # the index of `ARRAY.into_iter().enumerate().<adaptor>(|(i, x)| ..)`: 0..len(ARRAY)
+        for c in tir.walk(root):
+            if c.get("k") == "Closure" and len(c["params"]) == 1 and c["params"][0].get("k") == "Tuple" and c["params"][0]["pats"] and c["params"][0]["pats"][0].get("k") == "Bind" \
+                    and c["params"][0]["pats"][0].get("id") == n.get("id"):
+                method, recv = closure_application(root, c)
+                if method in ("map", "filter_map", "for_each", "filter", "flat_map", "try_for_each"):
+                    it = strip(recv)
+                    if it.get("k") == "MethodCall" and it["method"] == "enumerate" and not it.get("args"):
+                        src = strip(it["recv"])
+                        while src.get("k") == "MethodCall" and src["method"] in ("iter", "into_iter", "iter_mut", "copied", "cloned") and not src.get("args"):
+                            src = strip(src["recv"])
+                        ln = panics.array_len((src.get("ty") or "").lstrip("&"))
+                        if ln is not None:
+                            return (0, ln)
+    if cl is None:
         # the index of `for (i, x) in ARRAY.into_iter().enumerate()` / `.iter().enumerate()`: 0..len(ARRAY)
         for f in tir.walk(root):
             if f.get("k") == "For" and f["pat"].get("k") == "Tuple" and f["pat"]["pats"] and f["pat"]["pats"][0].get("k") == "Bind" and f["pat"]["pats"][0].get("id") == n.get("id"):
@@ -123,6 +138,11 @@ def discharge_tir(F, ctx, owner, site, sidx):
     if site["kind"] == "bounds":
         key = tuple(site["sp"])
         for o, n in near(sidx, key):
+            if n.get("k") == "Index" and not n.get("overloaded") and o == owner:
+                why = known_slice_length(root, n)
+                if why:
+                    return why
+        for o, n in near(sidx, key):
             if n.get("k") == "Index" and not n.get("overloaded"):
                 ln = panics.array_len(strip(n["base"]).get("ty") or "") or panics.array_len(n["base"].get("ty") or "")
                 r = tir_range_of_local(F, root, n["index"])
@@ -160,6 +180,63 @@ def discharge_tir(F, ctx, owner, site, sidx):
             if r:
                 return r
         return None
+    return None
+
+
+READ_WIDTH = {"read_u8": 1, "read_i8": 1, "read_u16": 2, "read_i16": 2, "read_u32": 4, "read_i32": 4, "read_f32": 4, "read_u64": 8, "read_i64": 8, "read_f64": 8}
+
+
+def known_slice_length(root, n):
+    """`s[i]` with a literal i on a slice local whose length is known: an element of `xs.chunks_exact(k)`, or a half of
+    `ARR.split_at(m)` (ARR an array reference) minus the bytes `s.read_uN()` consumed before the access"""
+    i = tir.lit_int(n["index"])
+    b = strip(n["base"])
+    if i is None or i < 0 or b.get("k") != "Path" or b.get("res") != "local":
+        return None
+    bid = b.get("id")
+    # element of chunks_exact(k)
+    for f in tir.walk(root):
+        pats = []
+        it = None
+        if f.get("k") == "For":
+            pats, it = [f["pat"]], strip(f["iter"])
+        elif f.get("k") == "Closure" and len(f["params"]) == 1:
+            pats = [f["params"][0]]
+        for p in pats:
+            while p.get("k") == "Ref":
+                p = p["pat"]
+            if p.get("k") == "Bind" and p.get("id") == bid and it is not None:
+                src = it
+                while src.get("k") == "MethodCall" and src["method"] in ("enumerate", "by_ref") and not src.get("args"):
+                    src = strip(src["recv"])
+                if src.get("k") == "MethodCall" and src["method"] == "chunks_exact" and len(src["args"]) == 1:
+                    k = tir.lit_int(src["args"][0])
+                    if k is not None and i < k:
+                        # reads on the chunk before the access shorten it
+                        return "element of chunks_exact(%d), index %d" % (k, i)
+    # half of split_at(m) on an array reference
+    for s in tir.walk(root):
+        if s.get("k") == "Let" and s["pat"].get("k") == "Tuple" and len(s["pat"]["pats"]) == 2 and s.get("init") is not None:
+            init = strip(s["init"])
+            if init.get("k") == "MethodCall" and init["method"] == "split_at" and len(init["args"]) == 1:
+                m = tir.lit_int(init["args"][0])
+                ln = panics.array_len((strip(init["recv"]).get("ty") or "").lstrip("&"))
+                for pos, q in enumerate(s["pat"]["pats"]):
+                    if q.get("k") == "Bind" and q.get("id") == bid and m is not None and ln is not None and m <= ln:
+                        have = m if pos == 0 else ln - m
+                        consumed = 0
+                        for x in tir.walk(root):
+                            if x is n:
+                                break
+                            if x.get("k") == "MethodCall" and strip(x["recv"]).get("id") == bid:
+                                if x["method"] in READ_WIDTH:
+                                    consumed += READ_WIDTH[x["method"]]
+                                elif x["method"] not in ("len", "is_empty", "iter", "first", "last", "get"):
+                                    return None
+                            if x.get("k") in ("Assign", "AssignOp") and strip(x["l"]).get("id") == bid:
+                                return None
+                        if i < have - consumed:
+                            return "half of split_at(%d) on an array of %d, %d bytes consumed before, index %d" % (m, ln, consumed, i)
     return None
 
 
@@ -453,14 +530,31 @@ def _payloads_has(F, G, variant):
     if b is None:
         return False
     val = L.strip_try(b["tir"]["value"])
+
+    def entry(e):
+        r = strip(e)
+        return r.get("k") == "Index" and "Event::%s" % variant in tir.pretty(r["index"])
+
+    def refuses(blk):
+        blk = L.strip_try(blk)
+        if blk.get("k") == "Block":
+            last = blk.get("tail") or (blk["stmts"][-1].get("e") if blk.get("stmts") and blk["stmts"][-1].get("k") == "Expr" else None)
+            return last is not None and refuses(last)
+        return blk.get("k") == "Ret" and (declared(strip(blk.get("e") or {})) or "").endswith("::Err")
     for s in val.get("stmts", []):
         e = s.get("e") if s.get("k") == "Expr" else None
         if e is not None and e.get("k") == "Try":
             i = strip(e["e"])
-            if i.get("k") == "MethodCall" and i["method"] in ("ok_or_else", "ok_or"):
-                r = strip(i["recv"])
-                if r.get("k") == "Index" and "Event::%s" % variant in tir.pretty(r["index"]):
-                    return True
+            if i.get("k") == "MethodCall" and i["method"] in ("ok_or_else", "ok_or") and entry(i["recv"]):
+                return True
+        # `if sizes[X].is_none() { return Err(..) }` at the top level
+        if e is not None and strip(e).get("k") == "If" and not strip(e).get("else"):
+            c = strip(strip(e)["cond"])
+            if c.get("k") == "MethodCall" and c["method"] == "is_none" and entry(c["recv"]) and refuses(strip(e)["then"]):
+                return True
+        # `let Some(_) = sizes[X] else { return Err(..) };`
+        if s.get("k") == "Let" and s.get("els") is not None and entry(s.get("init") or {}) and (s["pat"].get("path") or "").endswith("::Some") and refuses(s["els"]):
+            return True
     return False
 
 
@@ -557,6 +651,10 @@ def upper_bounded_at(F, n, par, pname):
                 return True
             if in_false and bound_of(bb[0], False):
                 return True
+        if x.get("k") == "Match":
+            for a in x["arms"]:
+                if a.get("guard") is not None and any(y is child for y in tir.walk(a["body"])) and bound_of(a["guard"], True):
+                    return True
         if x.get("k") == "Block":
             stmts = x.get("stmts", [])
             idx = next((i for i, s in enumerate(stmts) if any(y is child for y in tir.walk(s))), len(stmts))
